@@ -71,6 +71,19 @@ func (fs *frSpec) plain(x, v int) (value int, forces bool) {
 	return g(v, x), true
 }
 
+// class: input class of the fold function for violation keys.
+func (fs *frSpec) class() string {
+	switch abs(fs.Variant) % len(frVariants) {
+	case 0:
+		return "lazy argument never forced"
+	case 1, 2, 3:
+		return "lazy argument forced once"
+	case 9, 10:
+		return "lazy argument forced 0..2 times per element"
+	}
+	return "lazy argument forced repeatedly"
+}
+
 func (fs *frSpec) limit() int {
 	if abs(fs.P)%2 == 0 {
 		return 1 << 50
@@ -208,11 +221,33 @@ func genFRLen(r *rand.Rand) int {
 	return 65 + r.IntN(136)
 }
 
+// frRerunsRest: fold functions that put their lazy argument into the returned Eval twice
+// (lazy.Map2(rest, rest, ..), rest.FlatMap(.. rest.Map ..)). lazy.Eval is a trampoline without a
+// result cache: running such an Eval runs the Eval of the rest twice, which runs the Eval of
+// its rest twice, ... - 2^n steps of lazy.Run by construction of the VALUE the fold function
+// built, although FoldRight itself calls the fold function once per element. Those entries are
+// used on at most frRerunMax elements, so that they measure the number of fold function
+// calls and the result, not the time the doubled Evals take.
+func frRerunsRest(variant int) bool {
+	v := abs(variant) % len(frVariants)
+	return v == 6 || v == 8
+}
+
+const frRerunMax = 12
+
 func genFoldRightCase(r *rand.Rand) *caseSpec {
 	n := genFRLen(r)
-	sp := genFinite(r, n, 2, 260, "")
+	variant := r.IntN(len(frVariants))
+	maxLen := 260
+	if frRerunsRest(variant) {
+		maxLen = frRerunMax
+		if n > maxLen {
+			n = 2 + n%(maxLen-1)
+		}
+	}
+	sp := genFinite(r, n, 2, maxLen, "")
 	sp.Term = "foldRightForce"
-	sp.FR = &frSpec{Variant: r.IntN(len(frVariants)), Gets: 1 + r.IntN(3), G: r.IntN(nScan), Z: r.IntN(11), P: r.IntN(nPred), T: sp.Off + r.IntN(len(sp.Vals)+4) - 1}
+	sp.FR = &frSpec{Variant: variant, Gets: 1 + r.IntN(3), G: r.IntN(nScan), Z: r.IntN(11), P: r.IntN(nPred), T: sp.Off + r.IntN(len(sp.Vals)+4) - 1}
 	return sp
 }
 
